@@ -77,10 +77,12 @@ META.update({
         "exact part: attribute / parameter / dropped-key sets are read off the real AST on every run (finite sets: C11.keys.<K>, C11.grid.tz). "
         "bounded part: round trips on enumerated instances. Known finding D15-LinkedAsset.")),
     'C13': dict(level='other', assumptions=['A1', 'A2', 'A4'], explanation=(
-        "proved: coarse grid construction (members, first member, dt total, discount). No function contract reaches __make_periodic__ or "
-        "__extend_mapping_to_minor_grid__ (nested data-dependent pandas loops): the equivalence is decided by bounded stand-ins -- periodic and "
-        "coarse-frequency assets of four kinds (one / two variables per step, one / several mapping rows) vs independent scipy LPs with explicit "
-        "equalities, constant rate within coarse intervals over DST -- never counted as proved.")),
+        "proved: coarse grid construction (members, first member, dt total, discount); Asset.__extend_mapping_to_minor_grid__ from the real source "
+        "(nested symbolic loops: one row per (given row, minor step of its coarse step), same variable, factor = dt / coarse dt x own factor, other "
+        "fields kept) and the Lean lemmas 'factors of a coarse step add up to the own factor' / 'constant rate within a coarse step'. No function "
+        "contract reaches __make_periodic__ (data-dependent pandas merging): periodic and coarse-frequency assets of four kinds (one / two variables "
+        "per step, one / several mapping rows) vs independent scipy LPs with explicit equalities, constant rate within coarse intervals over DST, "
+        "are bounded stand-ins, never counted as proved. " + PROOF_NOTE)),
     'C15': dict(level='other', assumptions=['A2', 'A3', 'A5'], explanation=(
         "proved on the real source (fix_time_window case of the assembly contract): pinned only if in the window, others untouched, costs untouched, "
         "frame. The converse (every window variable is pinned) needs a first-occurrence argument: bounded scenarios incl. variables spanning several "
